@@ -206,7 +206,8 @@ def lazy_callback_rules(ctx: Ctx, rule: str) -> None:
         why = "value is not functools.partial(self._callbacks.insert, len(self._callbacks), <store coroutine>)"
         if isinstance(v, ast.Call) and (dotted(v.func) or "").split(".")[-1] == "partial" and len(v.args) == 3:
             a0, a1, a2 = v.args
-            c0 = dotted(a0) == "self._callbacks.insert"
+            c0 = C.utext(f, a0) == "self._callbacks.insert"
+            a1 = C.inline_locals(f, a1)  # a temporary evaluated in set_result/set_exception is still "at call time"
             c1 = isinstance(a1, ast.Call) and dotted(a1.func) == "len" and len(a1.args) == 1 and dotted(a1.args[0]) == "self._callbacks"
             inner = f.nested.get(a2.id) if isinstance(a2, ast.Name) else None
             c2 = inner is not None and inner.is_async and any(
